@@ -8,7 +8,7 @@
 From Coq Require Import List Arith Bool ZArith Sorted Floats.PrimFloat.
 Import ListNotations.
 From ByC Require Import Base.Result Base.ListAux Base.FloatFacts Model.Extrema.
-From ByC Require Import Proofs.Extrema.
+From ByC Require Import Proofs.Extrema Proofs.ExtremaSpec.
 
 (* exactly one peak per closed positive half-wave, at the first maximum of the raw signal over
    its window; nothing else is a peak *)
@@ -105,3 +105,17 @@ Theorem C02_trimming_failure : forall x pk tr,
   (forall e, find_extrema x = Err e -> e = EIndex).
 Proof. exact find_extrema_err_index. Qed.
 Print Assumptions C02_trimming_failure.
+
+(* end to end, first_extrema = None: what find_extrema REPORTS (un-padded indices) is exactly the
+   first maxima of the closed positive half-waves that lie beyond the boundary — nothing else *)
+Theorem C02_reported_peaks_end_to_end : forall x peaks troughs z,
+  find_extrema x = Ok (peaks, troughs) -> x_first x = FNone ->
+  length (x_raw x) + 2 * x_padn x = length (x_pos x) ->
+  Forall (fun v => finite v = true) (x_raw x) ->
+  (In z peaks <->
+   exists a b p, closed_halfwave (x_pos x) true a b /\
+     first_argmax (pad (x_padn x) (x_raw x)) a b p /\
+     z = (Z.of_nat p - Z.of_nat (x_padn x))%Z /\
+     (x_boundary x < z < Z.of_nat (length (x_raw x)) - x_boundary x)%Z).
+Proof. exact find_extrema_none_spec. Qed.
+Print Assumptions C02_reported_peaks_end_to_end.
